@@ -196,10 +196,36 @@ func runGenerator(tool string, srv *genServer, bodies map[string][]byte, keepDir
 		}
 	}
 	_ = other // requests for other paths (retries, probes) are not constrained by the property
+	var dumped map[string][]string
+	dumpTried := false
 	for _, t := range genTargets {
 		path := filepath.Join(dir, "internal", "wordlist", t.stem+".go")
 		pkg, variable, list, err := parseGenerated(path)
 		want := expectedList(bodies[t.stem])
+		if err != nil {
+			if _, perr := parser.ParseFile(token.NewFileSet(), path, nil, 0); perr == nil {
+				// valid Go, but the list is not written as a plain []string literal (e.g. a constant split
+				// at start-up): the property does not prescribe a representation, so evaluate the
+				// generated package for real and compare what its variables hold
+				if !dumpTried {
+					dumpTried = true
+					var derr error
+					dumped, derr = dumpGenerated(dir)
+					if derr != nil {
+						problems = append(problems, "the generated package does not compile or run: "+derr.Error())
+					}
+				}
+				if dumped != nil {
+					got, ok := dumped[t.variable]
+					if !ok {
+						problems = append(problems, fmt.Sprintf("the generated package has no variable %s", t.variable))
+					} else if !equalLists(got, want) {
+						problems = append(problems, fmt.Sprintf("%s: generated variable %s holds %+q, the non-empty input lines are %+q (input %+q)", t.stem, t.variable, clip(got), clip(want), clipS(string(bodies[t.stem]))))
+					}
+				}
+				continue
+			}
+		}
 		switch {
 		case err != nil:
 			problems = append(problems, fmt.Sprintf("%s.go does not parse as the expected Go file: %v", t.stem, err))
@@ -234,6 +260,45 @@ func lastLines(s string, n int) string {
 		l = l[len(l)-n:]
 	}
 	return strings.Join(l, " | ")
+}
+
+// dumpGenerated compiles the package generated in dir/internal/wordlist together with a
+// small program that prints its ten variables, and returns what they hold.
+func dumpGenerated(dir string) (map[string][]string, error) {
+	if err := os.WriteFile(filepath.Join(dir, "go.mod"), []byte("module gencheck\n\ngo 1.11\n"), 0644); err != nil {
+		return nil, err
+	}
+	var b bytes.Buffer
+	b.WriteString("package main\n\nimport (\n\t\"encoding/json\"\n\t\"os\"\n\n\twl \"gencheck/internal/wordlist\"\n)\n\nfunc main() {\n\tjson.NewEncoder(os.Stdout).Encode(map[string][]string{\n")
+	for _, t := range genTargets {
+		fmt.Fprintf(&b, "\t\t%q: wl.%s,\n", t.variable, t.variable)
+	}
+	b.WriteString("\t})\n}\n")
+	if err := os.MkdirAll(filepath.Join(dir, "verifdump"), 0755); err != nil {
+		return nil, err
+	}
+	if err := os.WriteFile(filepath.Join(dir, "verifdump", "main.go"), b.Bytes(), 0644); err != nil {
+		return nil, err
+	}
+	cmd := exec.Command("go", "run", "./verifdump")
+	cmd.Dir = dir
+	cmd.Env = goEnv()
+	var stderr bytes.Buffer
+	cmd.Stderr = &stderr
+	out, err := cmd.Output()
+	if err != nil {
+		return nil, fmt.Errorf("%v: %s", err, lastLines(stderr.String(), 3))
+	}
+	res := map[string][]string{}
+	if err := jsonUnmarshal(out, &res); err != nil {
+		return nil, err
+	}
+	for k, v := range res {
+		if v == nil {
+			res[k] = []string{}
+		}
+	}
+	return res, nil
 }
 
 // line alphabet: letters and combining marks only, as the property states.
@@ -393,9 +458,31 @@ func runC17(tier string) int {
 			die("%v", err)
 		}
 		if len(probs) == 0 {
+			var genDump, repoDump map[string][]string
 			for _, t := range genTargets {
-				_, _, got, _ := parseGenerated(filepath.Join(dir, "internal", "wordlist", t.stem+".go"))
+				_, _, got, gerr := parseGenerated(filepath.Join(dir, "internal", "wordlist", t.stem+".go"))
+				if gerr != nil {
+					// other representation: take the lists from the compiled generated package
+					if genDump == nil {
+						genDump, _ = dumpGenerated(dir)
+					}
+					got = genDump[t.variable]
+				}
 				_, _, committed, err := parseCommitted(filepath.Join(repoDir, "internal", "wordlist"), t.variable)
+				if err != nil {
+					// the committed lists are not string-literal slices either: ask the linked package
+					if repoDump == nil {
+						w := buildWorker()
+						cmd := exec.Command(w, "-prop", "lists")
+						cmd.Env = append(goEnv(), "VERIF_DIR="+verifDir)
+						if o, e := cmd.Output(); e == nil {
+							jsonUnmarshal(extractResult(o), &repoDump)
+						}
+					}
+					if l, ok := repoDump[t.variable]; ok {
+						committed, err = l, nil
+					}
+				}
 				r.Evaluations++
 				if err != nil || !equalLists(got, committed) {
 					r.ViolationCount++
@@ -414,7 +501,7 @@ func runC17(tier string) int {
 		os.RemoveAll(dir)
 	}
 	r.Distinct = int64(len(distinctLists))
-	r.Rule = fmt.Sprintf("the real update-wordlist binary (built from the current tree with -tags verif) is run with its HTTP fetches redirected to a loopback server owned by the check; enumerated inputs: every file of <=%d lines over the line alphabet %+q (blank line, ASCII, precomposed and decomposed accents, Han, kana, conjoining jamo), with and without trailing LF, ten pairwise different files per tool run assigned to the ten targets by rotation (thorough: every file to every target), plus the size ladder 1/2047/2048/2049/5000/20000/100000 lines, files with words of 4095...2^20+1 letters and the ten canonical lists (with and without trailing LF). Oracle: tool exits 0, each of the ten expected URLs requested, each generated file parses, declares package wordlist and exactly the expected variable as a []string literal equal to the non-empty input lines byte for byte in order; canonical run reproduces the committed lists and compiles with go build. distinct_nontrivial = distinct input files", maxLines, lineAlphabet)
+	r.Rule = fmt.Sprintf("the real update-wordlist binary (built from the current tree with -tags verif) is run with its HTTP fetches redirected to a loopback server owned by the check; enumerated inputs: every file of <=%d lines over the line alphabet %+q (blank line, ASCII, precomposed and decomposed accents, Han, kana, conjoining jamo), with and without trailing LF, ten pairwise different files per tool run assigned to the ten targets by rotation (thorough: every file to every target), plus the size ladder 1/2047/2048/2049/5000/20000/100000 lines, files with words of 4095...2^20+1 letters and the ten canonical lists (with and without trailing LF). Oracle: tool exits 0, each of the ten expected URLs requested, each generated file parses and its variable holds exactly the non-empty input lines byte for byte in order (read from the []string literal, or, when the list is written in another representation, by compiling the generated package and printing its variables); canonical run reproduces the committed lists and compiles with go build. distinct_nontrivial = distinct input files", maxLines, lineAlphabet)
 	r.Extra["enumerated_files"] = nEnumerated
 	r.Extra["tool_runs"] = len(batches) + 1
 	r.Samples = append(r.Samples, map[string]interface{}{"input": "a\n\n\u00e9\nbc", "expected_list": []string{"a", "\u00e9", "bc"}}, map[string]interface{}{"input": batches[len(batches)/2].desc})
